@@ -404,8 +404,8 @@ func runCrdt(c *Ctx) error {
 		"server log (server order, no echo) and wire round trip per delivery, GC off; every operation of every change is " +
 		"replayed by the Lean model per replica and Marshal() compared after each step; non-trivial = some replica applied " +
 		"a remote change while holding unpushed local changes (a concurrent pair); distinct by trace hash"
-	if c.Replay != nil {
-		return fmt.Errorf("crdt engine: replay is model-side only (OP lines carry the full operations); use the driver directly")
+	if c.Replay != nil && !c.ReplaySeed("crdt") {
+		return fmt.Errorf("crdt: replay needs a `T crdt-<seed>-<i>` line (traces are regenerated from the seed)")
 	}
 	r := c.Rng
 	for i := 0; i < c.N; i++ {
